@@ -13,12 +13,13 @@ import z3
 from harness.common import *
 
 
-def chain_src(d, vals=None, void=False):
-    """helpers h1..hd (value-returning, or void when `void`); h_i = slot A (callee: marker | h_{i-1}) + slot B (marker | h_{i-2} | leaf)"""
-    if void:
-        out = ['@group(0) @binding(0) var<storage, read_write> u: array<u32, 4>;', 'fn leaf() { u[0] = 1u; }']
-    else:
-        out = ['@group(0) @binding(0) var<uniform> u: vec4<f32>;', 'fn leaf() -> u32 { return u32(u.x); }']
+def chain_src(d, vals=None, void=False, pad=0):
+    """helpers h1..hd (value-returning, or void when `void`); h_i = slot A (callee: marker | h_{i-1}) + slot B (marker | h_{i-2} | leaf);
+    `pad` unrelated helpers are declared first, so the chain sits at function-arena indices >= pad (hundreds of functions)"""
+    out = ['@group(0) @binding(0) var<storage, read_write> u: array<u32, 4>;'] if void else ['@group(0) @binding(0) var<uniform> u: vec4<f32>;']
+    for k in range(pad):
+        out.append(f'fn pad{k}() {{}}' if void else f'fn pad{k}() -> u32 {{ return {k}u; }}')
+    out.append('fn leaf() { u[0] = 1u; }' if void else 'fn leaf() -> u32 { return u32(u.x); }')
     for i in range(1, d + 1):
         out.append(f'fn ma{i}() {{}}' if void else f'fn ma{i}() -> u32 {{ return 0u; }}')
         out.append(f'fn mb{i}() {{}}' if void else f'fn mb{i}() -> u32 {{ return 0u; }}')
@@ -63,15 +64,16 @@ def run(ctx):
     S, c = ctx.S, ctx.S.conv
     quick = ctx.tier == 'quick'
     d = 7 if quick else 9
-    ctx.bounds = {'call chain depth': d, 'struct nesting depth': d, 'shapes': 'per level: call of the previous level present/absent; on two (thorough: three) levels also a '
+    ctx.bounds = {'call chain depth': d, 'unrelated functions declared before the chain': '0 and 70' if quick else '0, 70 and 300', 'struct nesting depth': d, 'shapes': 'per level: call of the previous level present/absent; on two (thorough: three) levels also a '
                   'call of level i-2 or of a shared leaf; per struct level each of two members is scalar / previous struct / array of it (symbolic on 3 levels, both = struct elsewhere)'}
     ctx.assumptions += ['cost measure = interpreted invocations of the recursive walkers (deterministic; the native replay at depth 24 shows the wall-clock effect)',
                         'budget: call graph walk <= entries * (functions + call sites + 1); type walk <= variables * (types + member edges + 1): linear in the size of the shader']
     seen = {}
     # ------------------------------------------------------------------ (a) call graphs
-    for void in (False, True):
-        key_cg = 'C20/call-graph-' + ('void' if void else 'value')
-        src = chain_src(d, void=void)
+    families = [(False, 0), (True, 0), (False, 70)] + ([] if quick else [(True, 70), (False, 300)])
+    for void, pad in families:
+        key_cg = 'C20/call-graph-' + ('void' if void else 'value') + (f'-after-{pad}-functions' if pad else '')
+        src = chain_src(d, void=void, pad=pad)
         dmp = S.dump(src)
         mj = dmp['module']
         fh = {f['name']: i for i, f in enumerate(mj['functions'])}
@@ -94,9 +96,9 @@ def run(ctx):
                 assume.append(tb == fh[f'h{i - 1}'])            # both call sites name the previous level: the doubling shape
             else:
                 assume.append(tb == fh['leaf'])
-        n_funcs, n_sites = len(mj['functions']), 2 * d + 2
+        n_funcs, n_sites = len(mj['functions']) - pad, 2 * d + 2          # the unrelated helpers are never reached from an entry point
         budget = 2 * (n_funcs + n_sites + 1)
-        res = ctx.explore(f'global_shader_stages/{"void" if void else "value"}-chain-depth-{d}', lambda it: it.call('global_shader_stages', [mkref(module)]), assume=assume,
+        res = ctx.explore(f'global_shader_stages/{"void" if void else "value"}-chain-depth-{d}' + (f'-after-{pad}-functions' if pad else ''), lambda it: it.call('global_shader_stages', [mkref(module)]), assume=assume,
                           env={'call_caps': {'update_stages': budget + 1}}, anchors=['global_shader_stages', 'update_stages', 'update_stages_blocks'], timeout_s=3000, max_paths=20000)
         worst = (0, None)
         for pc, kind, out, calls in res:
@@ -118,10 +120,10 @@ def run(ctx):
             m = ctx.witness(pc)
             inv = {v: k for k, v in fh.items()}
             shape = {k: inv[model_value(m, t)] for k, t in terms.items()}
-            rep, det = replay_chain(ctx, shape, d, void)
+            rep, det = replay_chain(ctx, shape, d, void, pad)
             ctx.report(key_cg, f'update_stages entered {">= " if kind == "cost" else ""}{n} times on a {n_funcs}-function / {n_sites}-call-site shader (linear budget {budget}); shape {shape}',
                        det, rep, det)
-        ctx.extra['call_graph_' + ('void' if void else 'value')] = {'paths': len(res), 'worst_update_stages_invocations': worst[0], 'budget': budget, 'functions': n_funcs, 'call_sites': n_sites}
+        ctx.extra['call_graph_' + ('void' if void else 'value') + (f'_pad{pad}' if pad else '')] = {'paths': len(res), 'worst_update_stages_invocations': worst[0], 'budget': budget, 'functions': n_funcs, 'call_sites': n_sites}
         ctx.sample({'harness': 'chain', 'depth': d, 'worst invocations': worst[0], 'budget': budget})
         ctx.vacuity_witness('cost assertion reachable', res[0][0])
     # ------------------------------------------------------------------ (b) type graphs
@@ -183,6 +185,7 @@ def run(ctx):
     ctx.sample({'harness': 'nested structs', 'depth': d, 'worst invocations': worst2[0], 'budget': budget2})
     # ------------------------------------------------------------------ native: the doubling shapes at depth 24 / 22 must be fast on the real build
     for name, (rep, det) in (('call-graph-value', replay_chain(ctx, None, d, False)), ('call-graph-void', replay_chain(ctx, None, d, True)),
+                             ('call-graph-value-after-70-functions', replay_chain(ctx, None, d, False, 70)),
                              ('type-graph', replay_structs(ctx, None, d))):
         ctx.sample({'native': name, **{k: v for k, v in det.items() if k != 'wgsl'}})
         if rep:
@@ -209,16 +212,16 @@ def timed_gen(ctx, src, opts, limit=20):
     return time.time() - t0, okv
 
 
-def replay_chain(ctx, shape, d, void=False):
+def replay_chain(ctx, shape, d, void=False, pad=0):
     """the witness shape generalised to depth 24 (every level calls the previous one from both call sites)"""
     D = 24
     vals = {}
     for i in range(1, D + 1):
         vals[f'a{i}'] = f'h{i - 1}' if i > 1 else 'leaf'
         vals[f'b{i}'] = f'h{i - 1}' if i > 1 else 'leaf'
-    src = chain_src(D, vals, void)
+    src = chain_src(D, vals, void, pad)
     secs, okv = timed_gen(ctx, src, {})
-    base, _ = timed_gen(ctx, chain_src(D, None, void), {})
+    base, _ = timed_gen(ctx, chain_src(D, None, void, pad), {})
     det = {'wgsl': src, 'depth': D, 'lines': src.count('\n'), 'seconds': round(secs, 3), 'same_size_shader_without_calls_seconds': round(base, 3), 'generated': okv}
     return secs > max(1.0, 20 * base), det
 
